@@ -102,7 +102,9 @@ AfterReg(t) == CASE th[t].op \in {0, 5, 8} -> "b1"          \* readers: begin()
                  [] OTHER -> "b1"                        \* erase: find the element first
 Register(t) == LET r == th[t].myrec IN
     \/ Do(t, "g1", TRUE, sh, [th[t] EXCEPT !.pc = "g2", !.exp = sh.zhead], gh, E(t, "ald", "zhead", 1, sh.zhead, 0))
-    \/ Do(t, "g2", TRUE, [sh EXCEPT !.rec[r].next = th[t].exp], Pc(t, "g3"), Touch(gh, {}, {r}), E(t, "ast", "r.next", r, th[t].exp, 0))
+    \* (memory_order_relaxed: the field m of the event is part of the conformance check here)
+    \/ Do(t, "g2", TRUE, [sh EXCEPT !.rec[r].next = th[t].exp], Pc(t, "g3"), Touch(gh, {}, {r}),
+          [t |-> t, k |-> "ast", o |-> "r.next", i |-> r, v |-> th[t].exp, w |-> 0, m |-> 0])
     \/ Do(t, "g3", sh.zhead = th[t].exp, [sh EXCEPT !.zhead = r], Pc(t, AfterReg(t)), gh, EC(t, "zhead", 1, sh.zhead, r, TRUE))
     \/ Do(t, "g3", sh.zhead # th[t].exp, sh, [th[t] EXCEPT !.pc = "g2", !.exp = sh.zhead], gh, EC(t, "zhead", 1, sh.zhead, r, FALSE))
 
